@@ -139,6 +139,78 @@ func foldRegD(in *regD, v structform.ExtVisitor) error {
 	return v.OnString(fmt.Sprintf("D<%d>", *in.P))
 }
 
+// further pointer-shaped wrappers: one map field, a nested one-field struct
+// around a pointer, a one-element array of pointers
+type regE struct{ M map[string]string }
+type regF struct{ R struct{ P *int } }
+type regG [1]*int
+
+func foldRegE(in *regE, v structform.ExtVisitor) error {
+	if in == nil {
+		return v.OnNil()
+	}
+	return v.OnInt(len(in.M) + 200)
+}
+
+func ptrStr(tag string, p *int) string {
+	if p == nil {
+		return tag + "<nil>"
+	}
+	return fmt.Sprintf("%s<%d>", tag, *p)
+}
+
+func foldRegF(in *regF, v structform.ExtVisitor) error {
+	if in == nil {
+		return v.OnNil()
+	}
+	return v.OnString(ptrStr("F", in.R.P))
+}
+
+func foldRegG(in *regG, v structform.ExtVisitor) error {
+	if in == nil {
+		return v.OnNil()
+	}
+	return v.OnString(ptrStr("G", in[0]))
+}
+
+func init() {
+	ptrOr := func(f func(reflect.Value) val.V) func(reflect.Value) val.V {
+		return func(v reflect.Value) val.V {
+			if v.IsNil() {
+				return val.VNil()
+			}
+			return f(v.Elem())
+		}
+	}
+	ip := func(p reflect.Value) *int {
+		if p.IsNil() {
+			return nil
+		}
+		return p.Interface().(*int)
+	}
+	me := func(v reflect.Value) val.V { return val.VInt(int64(v.Field(0).Len() + 200)) }
+	mf := func(v reflect.Value) val.V { return val.VStr(ptrStr("F", ip(v.Field(0).Field(0)))) }
+	mg := func(v reflect.Value) val.V { return val.VStr(ptrStr("G", ip(v.Index(0)))) }
+	regConfig.Registered[reflect.TypeOf(regE{})] = me
+	regConfig.Registered[reflect.TypeOf(&regE{})] = ptrOr(me)
+	regConfig.Registered[reflect.TypeOf(regF{})] = mf
+	regConfig.Registered[reflect.TypeOf(&regF{})] = ptrOr(mf)
+	regConfig.Registered[reflect.TypeOf(regG{})] = mg
+	regConfig.Registered[reflect.TypeOf(&regG{})] = ptrOr(mg)
+}
+
+type withReg3 struct {
+	E  regE
+	F  regF
+	G  regG
+	ME map[string]regE
+	MF map[string]regF
+	LG []regG
+	I  interface{}
+	J  []interface{}
+	Z  int
+}
+
 func modelRegD(v reflect.Value) val.V {
 	p := v.Field(0)
 	if p.IsNil() {
@@ -383,7 +455,15 @@ type withRegInline struct {
 func c12Registered(c *run.C) {
 	r := c.R
 	var t reflect.Type
-	switch c.Idx % 13 {
+	switch c.Idx % 17 {
+	case 13:
+		t = reflect.TypeOf(withReg3{})
+	case 14:
+		t = reflect.TypeOf(regE{})
+	case 15:
+		t = reflect.TypeOf(map[string]regF{})
+	case 16:
+		t = reflect.TypeOf([]interface{}{})
 	case 5:
 		t = reflect.TypeOf(withReg2{})
 	case 6:
@@ -412,10 +492,11 @@ func c12Registered(c *run.C) {
 		t = reflect.TypeOf(map[string]regA{})
 	}
 	vg := &gen.ValueGen{R: r, O: gen.GoValueOpts{IfaceTypes: []reflect.Type{reflect.TypeOf(regA{}), reflect.TypeOf(&regB{}), reflect.TypeOf(0),
-		reflect.TypeOf(regC{}), reflect.TypeOf(regD{}), reflect.TypeOf(&regC{}), reflect.TypeOf(&regD{}), reflect.TypeOf(struct{ C regC }{}), reflect.TypeOf(map[string]regD{})}}}
+		reflect.TypeOf(regC{}), reflect.TypeOf(regD{}), reflect.TypeOf(&regC{}), reflect.TypeOf(&regD{}), reflect.TypeOf(struct{ C regC }{}), reflect.TypeOf(map[string]regD{}),
+		reflect.TypeOf(regE{}), reflect.TypeOf(regF{}), reflect.TypeOf(regG{}), reflect.TypeOf(&regE{}), reflect.TypeOf(map[string]regG{})}}}
 	v := vg.Value(t, 0)
 	tags := typeTags(t)
-	if c.Idx%13 == 3 {
+	if c.Idx%17 == 3 {
 		tags = append(tags, "registered-folder-inline")
 	}
 	c.Begin(goCase{Type: t.String(), Value: valueString(v), How: "registered", Tags: tags})
@@ -446,7 +527,7 @@ func c12Registered(c *run.C) {
 		c.Nontrivial(gen.Mix(124, gen.HashString(valueString(v))))
 		return
 	}
-	if _, ok := foldAgainstModel(c, t, v, regConfig, false, gotype.Folders(foldRegA, foldRegB, foldRegC, foldRegD)); !ok {
+	if _, ok := foldAgainstModel(c, t, v, regConfig, false, gotype.Folders(foldRegA, foldRegB, foldRegC, foldRegD, foldRegE, foldRegF, foldRegG)); !ok {
 		return
 	}
 	c.Observe("registered_folds_equal_to_model", 1)
